@@ -1,9 +1,9 @@
 """C14: reader fragmentation and failure. Proof: Props/C14.v. Correspondence: the 'rfault' observation: deserialize_full of the
 real crate over readers delivering 1-byte, 3-byte, prime-sized, mixed fragments with interleaved Interrupted, and failing after
-every byte count k in [0, len)."""
+every byte count k in [0, len); the model runs the full-copy deserializer as a program over read_exact against the same readers (Model/Prog.v, run_io)."""
 from .codecprops import *
 
-OPS = {"C13": ["ser", "wfault"], "C14": ["ser", "full"], "C18": ["ser", "schema"]}
+OPS = {"C13": ["ser", "wfault"], "C14": ["ser", "full", "rfault"], "C18": ["ser", "schema"]}
 ORACLE = {"C13": oracle_c13, "C14": oracle_c14, "C18": oracle_c18}
 
 
@@ -18,7 +18,7 @@ def extra_coverage(v, c):
             tot += int(st["n"], 16)
     v.coverage["failure_positions_tried"] = tot
     v.assumptions.append("'without corrupting memory through partially built values' is not expressible in the value-level model: observed only (a crash of the harness process is reported as a violation)")
-    v.coverage.setdefault("samples", []).append({"theorem": "C14_fragmentation_invariance: read_exact_io over any fragmenting/interrupting reader = read_exact on the stream as one slice"})
+    v.coverage.setdefault("samples", []).append({"theorem": "C14_full_copy_fragmentation_invariance: run_io (stream_reader data cut intr None) fuel (prog_full_top h t) = deser_full_top h t data, for every cut / intr / type / stream"})
 
 
 def check(v):
